@@ -309,6 +309,37 @@ def run(chk, facts, info):
     n7 = 0
     for fn in ('ProcessFile', 'MeasureFile', 'OpenTarget'):
         n7 += units.check_function(chk, 'C05-R7', facts.func('p2bin.c', fn), UNITS_P2BIN, UNIT_EXC, UNIT_FUNCS)
+    chk.rule('C05-R10', 'p2bin.c OpenTarget(): the buffer that the pre-fill loop writes holds the fill value in all of its '
+             'bytes: the most recent store into Buffer before that fwrite() is memset(Buffer, FillVal, BufferSize) on '
+             'every path (the zeroed entry-address header is written before, not after, the buffer is filled)',
+             min_instances=1)
+    ot_ = facts.func('p2bin.c', 'OpenTarget')
+
+    def bufwrite(ex):
+        for m in walk_own(ex):
+            if m[0] == 'call' and callee_name(m) in ('memset', 'memcpy', 'fread') and m[2] and \
+                    mentions(m[2][0], lambda x: var_is(x, {'Buffer'})):
+                if callee_name(m) == 'memset' and mentions(m[2][1], lambda x: var_is(x, {'FillVal'})) and \
+                        strip(m[2][0])[0] in ('gs', 'g') and (const_val(m[2][2]) or 0) >= 256:
+                    return 'fill'
+                return 'other@%s' % m[-1] if isinstance(m[-1], int) else 'other'
+            if is_assign(m) and strip(m[2])[0] == 'i' and mentions(strip(m[2])[1], lambda x: var_is(x, {'Buffer'})):
+                return 'other'
+        return None
+    n10 = 0
+    for (h, s0) in ot_.loops():
+        body = ot_.loop_body(h, s0)
+        for b, i, ln, c in ot_.calls('fwrite'):
+            if b in body and mentions(c[2][0], lambda x: var_is(x, {'Buffer'})):
+                n10 += 1
+                lw = ot_.last_writers(b, i, bufwrite)
+                ok = lw == {'fill'}
+                chk.ob('C05-R10', 'p2bin.c:OpenTarget:prefill-buffer', ok, ot_.loc(ln),
+                       'buffer filled with FillVal' if ok else
+                       'the pre-fill writes a buffer whose last store can be %s: unused image bytes do not all read as the '
+                       'fill value' % ', '.join(sorted(lw)))
+    if not n10:
+        raise AnalysisBroken('pre-fill loop of OpenTarget not found')
     chk.rule('C05-R8', 'p2bin.c MeasureFile(): the measured start/stop address and the largest granularity are updated '
              'only under FilterOK(cpu) and the segment selection, i.e. for exactly the records ProcessFile() copies',
              min_instances=3)
